@@ -408,6 +408,10 @@ func (s *jobStats) add(o *jobStats) {
 }
 
 func main() {
+	if len(os.Args) > 1 && os.Args[1] == "lift" {
+		liftMain(os.Args[2:])
+		return
+	}
 	repo := flag.String("repo", "/repo", "repository root")
 	overlayF := flag.String("overlay", "", "JSON file: {virtual path: real path}")
 	jobsF := flag.String("jobs", "", "JSON file with job list")
